@@ -97,6 +97,15 @@ template <glm::qualifier Q> static void reg_pack() {
 	add_op(name("unpackSnorm4x8"), "uI1", "f4", 'B', 'B', 0, FN { ST(out, glm::unpackSnorm4x8(in[0].u)); });
 	add_op(name("unpackHalf2x16"), "uI1", "f2", 'B', 'B', 0, FN { ST(out, glm::unpackHalf2x16(in[0].u)); });
 	add_op(name("unpackUnorm2x16"), "uI1", "f2", 'B', 'B', 0, FN { ST(out, glm::unpackUnorm2x16(in[0].u)); });
+	// gtc packHalf / unpackHalf on vectors of the library's qualifier and on explicitly packed vectors (which differ from the default
+	// gentypes under GLM_FORCE_DEFAULT_ALIGNED_GENTYPES): lanes as 16-bit codes
+	add_op(name("packHalf_vec3"), "fN3", "u3", 'B', 'B', 0, FN { glm::vec<3, glm::uint16, Q> p = glm::packHalf(VL<3, float, Q>::ld(in)); for (int i = 0; i < 3; ++i) ST1(out + i, (unsigned)p[i]); });
+	add_op(name("packHalf_vec3_packed"), "fN3", "u3", 'B', 'B', 0, FN { glm::vec<3, float, glm::packed_highp> v(in[0].f, in[1].f, in[2].f); launder_q(&v); glm::vec<3, glm::uint16, glm::packed_highp> p = glm::packHalf(v); for (int i = 0; i < 3; ++i) ST1(out + i, (unsigned)p[i]); });
+	add_op(name("packHalf_vec4"), "fN4", "u4", 'B', 'B', 0, FN { glm::vec<4, glm::uint16, Q> p = glm::packHalf(VL<4, float, Q>::ld(in)); for (int i = 0; i < 4; ++i) ST1(out + i, (unsigned)p[i]); });
+	add_op(name("packHalf_vec2_packed"), "fN2", "u2", 'B', 'B', 0, FN { glm::vec<2, float, glm::packed_highp> v(in[0].f, in[1].f); launder_q(&v); glm::vec<2, glm::uint16, glm::packed_highp> p = glm::packHalf(v); for (int i = 0; i < 2; ++i) ST1(out + i, (unsigned)p[i]); });
+	add_op(name("unpackHalf_vec3"), "uH3", "f3", 'B', 'B', 0, FN { glm::vec<3, glm::uint16, Q> p((glm::uint16)in[0].u, (glm::uint16)in[1].u, (glm::uint16)in[2].u); ST(out, glm::unpackHalf(p)); });
+	add_op(name("unpackHalf_vec3_packed"), "uH3", "f3", 'B', 'B', 0, FN { glm::vec<3, glm::uint16, glm::packed_highp> p((glm::uint16)in[0].u, (glm::uint16)in[1].u, (glm::uint16)in[2].u); launder_q(&p); ST(out, glm::unpackHalf(p)); });
+	add_op(name("unpackHalf_vec4_packed"), "uH4", "f4", 'B', 'B', 0, FN { glm::vec<4, glm::uint16, glm::packed_highp> p((glm::uint16)in[0].u, (glm::uint16)in[1].u, (glm::uint16)in[2].u, (glm::uint16)in[3].u); launder_q(&p); ST(out, glm::unpackHalf(p)); });
 	add_op(name("nextFloat"), "fX1", "f1", 'B', 'B', 0, FN { ST1(out, glm::nextFloat(in[0].f)); });
 	add_op(name("prevFloat"), "fX1", "f1", 'B', 'B', 0, FN { ST1(out, glm::prevFloat(in[0].f)); });
 	add_op(name("nextDouble"), "dX1", "d1", 'B', 'B', 0, FN { ST1(out, glm::nextFloat(in[0].d)); });
@@ -120,6 +129,19 @@ template <glm::qualifier Q> static void reg_pack() {
 	add_op(name("float_distance"), "fP1 fP1", "i1", 'B', 'B', 0, FN { ST1(out, (int)glm::float_distance(in[0].f, in[1].f)); });
 	add_op(name("float_distance_double"), "dP1 dP1", "u2", 'B', 'B', 0, FN { glm::uint64 d = (glm::uint64)glm::float_distance(in[0].d, in[1].d); out[0].u = (unsigned)d; out[1].u = (unsigned)(d >> 32); });
 	add_op(name("floatDistance_vec4"), "fP4 fP4", "i4", 'B', 'B', 0, FN { ST(out, glm::floatDistance(VL<4, float, Q>::ld(in), VL<4, float, Q>::ld(in + 4))); });
+	// gtx colour spaces (float and integer paths; the integer YCoCg-R lifting has compiler- and type-dependent shifts)
+	add_op(name("rgbColor"), "fZ3", "f3", 'U', 'U', 16, FN { glm::vec<3, float, Q> h = VL<3, float, Q>::ld(in); h.x *= 359.0f; ST(out, glm::rgbColor(h)); }, SC { return 1.0L; });
+	add_op(name("hsvColor"), "fZ3", "f3", 'U', 'U', 64, FN { ST(out, glm::hsvColor(VL<3, float, Q>::ld(in))); }, SC { return 360.0L; });
+	add_op(name("saturation"), "fZ1 fZ3", "f3", 'U', 'U', 16, FN { ST(out, glm::saturation(in[0].f * 2.0f, VL<3, float, Q>::ld(in + 1))); }, SC { return 4.0L; });
+	add_op(name("luminosity"), "fZ3", "f1", 'U', 'U', 8, FN { ST1(out, glm::luminosity(VL<3, float, Q>::ld(in))); }, SC { return 1.0L; });
+	add_op(name("rgb2YCoCg"), "fZ3", "f3", 'U', 'U', 8, FN { ST(out, glm::rgb2YCoCg(VL<3, float, Q>::ld(in))); }, SC { return 1.0L; });
+	add_op(name("YCoCg2rgb"), "fZ3", "f3", 'U', 'U', 8, FN { ST(out, glm::YCoCg2rgb(VL<3, float, Q>::ld(in))); }, SC { return 2.0L; });
+	add_op(name("rgb2YCoCgR_float"), "fZ3", "f3", 'U', 'U', 8, FN { ST(out, glm::rgb2YCoCgR(VL<3, float, Q>::ld(in))); }, SC { return 1.0L; });
+	add_op(name("YCoCgR2rgb_float"), "fZ3", "f3", 'U', 'U', 8, FN { ST(out, glm::YCoCgR2rgb(VL<3, float, Q>::ld(in))); }, SC { return 2.0L; });
+	add_op(name("rgb2YCoCgR_int"), "iH3", "i3", 'B', 'B', 0, FN { ST(out, glm::rgb2YCoCgR(glm::vec<3, int, Q>(in[0].i, in[1].i, in[2].i))); });
+	add_op(name("YCoCgR2rgb_int"), "iH1 iC2", "i3", 'B', 'B', 0, FN { ST(out, glm::YCoCgR2rgb(glm::vec<3, int, Q>(in[0].i, in[1].i % 32768, in[2].i % 32768))); });
+	add_op(name("rgb2YCoCgR_int16"), "iH3", "i3", 'B', 'B', 0, FN { glm::vec<3, glm::int16, Q> r = glm::rgb2YCoCgR(glm::vec<3, glm::int16, Q>((glm::int16)(in[0].i % 256), (glm::int16)(in[1].i % 256), (glm::int16)(in[2].i % 256))); for (int i = 0; i < 3; ++i) ST1(out + i, (int)r[i]); });
+	add_op(name("rgb2YCoCgR_uint8"), "iH3", "i3", 'B', 'B', 0, FN { glm::vec<3, glm::uint8, Q> r = glm::rgb2YCoCgR(glm::vec<3, glm::uint8, Q>((glm::uint8)in[0].i, (glm::uint8)in[1].i, (glm::uint8)in[2].i)); glm::vec<3, glm::uint8, Q> b = glm::YCoCgR2rgb(r); for (int i = 0; i < 3; ++i) ST1(out + i, (int)r[i] * 256 + (int)b[i]); });
 	add_op(name("convertLinearToSRGB"), "fZ4", "f4", 'V', 'V', 0, FN { ST(out, glm::convertLinearToSRGB(VL<4, float, Q>::ld(in))); });
 	add_op(name("convertSRGBToLinear"), "fZ4", "f4", 'V', 'V', 0, FN { ST(out, glm::convertSRGBToLinear(VL<4, float, Q>::ld(in))); });
 }
